@@ -409,6 +409,8 @@ def explore_job(job):
         st["icpts"] = sorted(ex.used_intercepts)
         st["cover"] = sorted(ex.cover)
         st["sched"] = ex.sched_points
+        if ex.xq:
+            st["xq"] = ex.xq
         if st["status"] == "ok" and OPTS.get("witness") and ex.pinned is None:
             # witness tape of this path for native validation
             if random.random() < OPTS.get("witness_rate", 1.0):
@@ -445,6 +447,7 @@ class HarnessResult:
         self.wall = 0.0
         self.truncated = False
         self.stopped_early = False
+        self.xq = []
         self.blocked = []
 
     def add(self, st):
@@ -473,8 +476,8 @@ class HarnessResult:
                 self.blocked.append({"info": info, "tape": None, "trace": st["trace"]})
         elif s in ("unsupported", "unknown", "unwind", "engine-error", "tape-exhausted"):
             self.problems.append({"status": s, "info": st.get("info"), "trace": st["trace"]})
-        if st.get("unknown_q"):
-            pass
+        if "xq" in st and len(self.xq) < OPTS.get("xcheck", 0):
+            self.xq.extend(st["xq"][: OPTS.get("xcheck", 0) - len(self.xq)])
         if "witness" in st and len(self.witnesses) < OPTS.get("max_witnesses", 40):
             self.witnesses.append(st["witness"])
 
